@@ -70,9 +70,11 @@ NeverSet == Range(cfg.never)
 
 ---------------------------------------------------------------------------
 (* events (DESIGN.md 3.3) *)
+Opt(c, f, d) == IF f \in DOMAIN c THEN c[f] ELSE d
 NewEv(c) == [e |-> "new", id |-> "l2", fam |-> c.fam, cont |-> c.cont, n |-> c.n, feat |-> c.feat,
-             stream |-> c.stream, sub |-> c.sub, never |-> c.never, x |-> c.x, limit |-> 0, take |-> -1,
-             nmaps |-> 0, term |-> "", stack |-> "[]"]
+             stream |-> c.stream, sub |-> (c.sub /\ c.fam # "co"), never |-> c.never, x |-> c.x,
+             limit |-> Opt(c, "limit", 0), take |-> Opt(c, "take", -1),
+             nmaps |-> Opt(c, "nmaps", 0), term |-> Opt(c, "term", ""), stack |-> "[]"]
 EvPoll(g) == [e |-> "poll", g |-> g]
 EvCpoll(c, k, wid, pw) == [e |-> "cpoll", c |-> c, k |-> k, wid |-> wid, pw |-> pw]
 EvCret(c, k, r, ok, v) == [e |-> "cret", c |-> c, k |-> k, r |-> r, ok |-> ok, v |-> v]
@@ -117,6 +119,8 @@ CountOK == Sub => rd.count = Cardinality({i \in DOMAIN rd.bits : rd.bits[i]})
 \* itself (race, race_ok, chain, wait_until pass cx through)
 WakerFor(slot) == IF Sub THEN <<"s", slot>> ELSE IF cfg.rdy THEN <<"p", rd.parent>> ELSE <<"p", gen>>
 WidIn(s, w) == (CHOOSE i \in DOMAIN s : s[i] = w) - 1
+\* (concurrent streams: the waker identities belong to third-party futures-buffered; they are canonicalised to -7)
+WidOf(w) == IF cfg.fam = "co" /\ TraceMode THEN -7 ELSE WidIn(seen, w)
 Seen1(w) == IF \E i \in DOMAIN seen : seen[i] = w THEN seen ELSE Append(seen, w)
 
 \* hand waker w to child c and start its poll: the cpoll event and the bookkeeping
@@ -162,7 +166,7 @@ NoRet == UNCHANGED <<final, needPoll>>
 InitEnv(c, nch, f) ==
   /\ cfg = c
   /\ fs = f
-  /\ rd = RInit(IF c.rdy THEN c.n ELSE 0)
+  /\ rd = RInit(IF c.rdy /\ c.fam # "co" THEN c.n ELSE 0)
   /\ pc = "idle" /\ cur = -1
   /\ ans = [i \in 0..(nch - 1) |-> "new"]
   /\ alive = [i \in 0..(nch - 1) |-> TRUE]
@@ -208,14 +212,18 @@ PollReuse ==
 (* state of the combinator (also after it was dropped: the Arc keeps the readiness alive).   *)
 WakeEffect(c, k, inp) ==
   LET w == handed[c][k + 1]
-      wid == WidIn(seen, w)
+      wid == WidOf(w)
   IN /\ firedL' = [firedL EXCEPT ![c] = @ \/ (k = polls[c] - 1)]
      /\ IF w[1] = "s"
           THEN LET i == w[2]
-                   old == rd.bits[i] IN
-               /\ rd' = RSet(rd, i)
-               /\ wokenL' = (wokenL \/ (~old /\ rd.parent = gen))
-               /\ Emit(<<EvFire(c, k, wid, inp)>> \o (IF old THEN <<>> ELSE <<EvPwake(rd.parent)>>) \o <<EvFired(c, k)>>)
+                   old == rd.bits[i]
+                   \* (concurrent streams: futures-buffered registers the parent waker one-shot: a notification
+                   \*  consumes it until the group is polled again)
+                   oneShot == cfg.fam = "co"
+                   notify == ~old /\ (oneShot => rd.parent >= 0) IN
+               /\ rd' = IF oneShot /\ notify THEN [RSet(rd, i) EXCEPT !.parent = -1] ELSE RSet(rd, i)
+               /\ wokenL' = (wokenL \/ (notify /\ rd.parent = gen))
+               /\ Emit(<<EvFire(c, k, wid, inp)>> \o (IF notify THEN <<EvPwake(rd.parent)>> ELSE <<>>) \o <<EvFired(c, k)>>)
           ELSE LET g == w[2] IN
                /\ UNCHANGED rd
                /\ wokenL' = (wokenL \/ g = gen)
